@@ -1,0 +1,67 @@
+// Copyright Amazon.com, Inc. or its affiliates. All Rights Reserved.
+// SPDX-License-Identifier: Apache-2.0
+
+//! verification hook drivers: crypto_stream
+//!
+//! Drives the receive half of the real `space::CryptoStream` (the buffer CRYPTO frames of one
+//! packet-number space are reassembled in) with CRYPTO frames and with the reads the TLS session
+//! context performs (`rx.pop_watermarked`). Nothing here is called by production code.
+
+use super::crypto_stream::CryptoStream;
+use s2n_quic_core::{frame::crypto::CryptoRef, varint::VarInt};
+
+pub struct CryptoRxDriver {
+    stream: CryptoStream,
+}
+
+impl Default for CryptoRxDriver {
+    fn default() -> Self {
+        Self::new()
+    }
+}
+
+impl CryptoRxDriver {
+    pub fn new() -> Self {
+        Self {
+            stream: CryptoStream::new(),
+        }
+    }
+
+    /// CRYPTO frame; `Err(code)` is the transport error code the frame is rejected with
+    pub fn on_crypto_frame(&mut self, offset: u64, data: &[u8]) -> Result<(), u64> {
+        let frame = CryptoRef {
+            offset: VarInt::new(offset).expect("offset below 2^62"),
+            data,
+        };
+        self.stream
+            .on_crypto_frame(frame)
+            .map_err(|err| err.code.as_u64())
+    }
+
+    /// TLS takes at most `max` bytes of in-order handshake data; returns them
+    pub fn consume(&mut self, max: usize) -> Vec<u8> {
+        let mut out = vec![];
+        while out.len() < max {
+            match self.stream.rx.pop_watermarked(max - out.len()) {
+                Some(chunk) => out.extend_from_slice(&chunk),
+                None => break,
+            }
+        }
+        out
+    }
+
+    /// in-order bytes waiting for TLS
+    pub fn buffered_in_order(&self) -> u64 {
+        self.stream.rx.len() as u64
+    }
+
+    /// bytes TLS has taken so far
+    pub fn consumed(&self) -> u64 {
+        self.stream.rx.consumed_len()
+    }
+
+    /// end of the in-order data received so far
+    pub fn total_received(&self) -> u64 {
+        self.stream.rx.total_received_len()
+    }
+}
